@@ -73,6 +73,16 @@ func condFacts(info *types.Info, cond ast.Expr, truth bool) []string {
 				}
 			}
 		}
+	case *ast.CallExpr:
+		// a boolean call (a predicate helper): named by its text
+		if tv, ok := info.Types[c]; ok && tv.Type != nil {
+			if b, ok := tv.Type.Underlying().(*types.Basic); ok && b.Info()&types.IsBoolean != 0 {
+				if truth {
+					return []string{exprStr(c) + "=true"}
+				}
+				return []string{exprStr(c) + "=false"}
+			}
+		}
 	case *ast.SelectorExpr, *ast.Ident:
 		if tv, ok := info.Types[c]; ok {
 			if b, ok := tv.Type.Underlying().(*types.Basic); ok && b.Info()&types.IsBoolean != 0 {
